@@ -570,6 +570,53 @@ def _closure_expr(fdef):
     return params, defaults, expr
 
 
+def inline_expression_helpers(repo, f):
+    """calls of NEW repository helpers (functions outside the baseline table) whose body is assignments / if-returns are
+    replaced by their value wherever they occur - also inside comprehensions, where statement-level splicing cannot reach"""
+    from .astutil import resolve_helper, bind_args
+    new = set(getattr(repo, "new_functions", []) or [])
+    if not new:
+        return False
+    changed = [False]
+
+    class T(ast.NodeTransformer):
+        def visit_FunctionDef(self, n):
+            if n is f.node:
+                self.generic_visit(n)
+            return n
+
+        def visit_Call(self, n):
+            self.generic_visit(n)
+            h, skip = resolve_helper(repo, f, n)
+            if h is None or h.qname not in new or h.node is f.node:
+                return n
+            ce = _closure_expr(h.node)
+            if ce is None:
+                return n
+            b = bind_args(h, skip, n)
+            if b is None:
+                return n
+            if skip and isinstance(n.func, ast.Attribute):
+                a = h.node.args
+                first = (a.posonlyargs + a.args)[0].arg
+                recv = n.func.value
+                if h.is_classmethod:
+                    b = dict(b)
+                    b[first] = recv if not (isinstance(recv, ast.Name) and recv.id == "self") else ast.Call(func=ast.Name(id="type", ctx=ast.Load()), args=[recv], keywords=[])
+                elif not (isinstance(recv, ast.Name) and recv.id == "self"):
+                    b = dict(b)
+                    b[first] = recv
+            params, defaults, expr = ce
+            for p_, a_ in b.items():
+                uses = sum(1 for x in ast.walk(expr) if isinstance(x, ast.Name) and x.id == p_)
+                if uses > 1 and not _cheap(a_):
+                    return n
+            changed[0] = True
+            return _Sub(b, {}).visit(copy.deepcopy(expr))
+    T().visit(f.node)
+    return changed[0]
+
+
 def inline_closures(fnode):
     """replace calls of expression-like local closures / lambdas by their value; returns changed"""
     closures = {}
@@ -1442,6 +1489,19 @@ def drop_unused_closures(fnode):
     fnode.body = strip(fnode.body)
 
 
+def _calls_new_helper(repo, f):
+    from .astutil import resolve_helper
+    new = set(getattr(repo, "new_functions", []) or [])
+    if not new:
+        return False
+    for n in ast.walk(f.node):
+        if isinstance(n, ast.Call):
+            h, _ = resolve_helper(repo, f, n)
+            if h is not None and h.qname in new and h.node is not f.node:
+                return True
+    return False
+
+
 def has_constant_structure(repo, f):
     """cheap trigger: the function contains a closure, a lambda bound to a name, a loop / comprehension over a constant
     iterable, a `**name` call argument or a constant-key dict local"""
@@ -1479,7 +1539,7 @@ def partial_evaluate(repo, max_rounds=8):
     report = {}
     counter = [0]
     for q, f in list(repo.funcs.items()):
-        if not has_constant_structure(repo, f):
+        if not has_constant_structure(repo, f) and not _calls_new_helper(repo, f):
             continue
         steps = []
         for _ in range(max_rounds):
@@ -1489,6 +1549,9 @@ def partial_evaluate(repo, max_rounds=8):
             if c0:
                 ch = True
                 steps.append("reduce")
+            if inline_expression_helpers(repo, f):
+                ch = True
+                steps.append("helpers")
             if inline_closures(f.node):
                 ch = True
                 steps.append("closures")
